@@ -198,21 +198,23 @@ Definition glycan_mol (rev_chain : bool) (t : gtree) : option mol :=
 
 (* does [out] denote the glycan [t]?  (for an open-chain root either numbering direction is accepted: the graph of
    an alditol does not tell its ends apart) *)
-Definition denotes (out : mol) (t : gtree) : option bool :=
+Definition denotes_with (same : mol -> mol -> bool) (out : mol) (t : gtree) : option bool :=
   let residues_plain := t in
   match glycan_mol false residues_plain with
   | None => None
   | Some g =>
-      if same_molecule out g then Some true else
+      if same out g then Some true else
       match t with
       | GT m _ => match anomeric m with
                   | [] => match glycan_mol true t with
-                          | Some g' => Some (same_molecule out g')
+                          | Some g' => Some (same out g')
                           | None => Some false end
                   | _ => Some false
                   end
       end
   end.
+
+Definition denotes (out : mol) (t : gtree) : option bool := denotes_with same_molecule out t.
 
 Fixpoint strip_tree (t : gtree) : gtree :=
   match t with GT m kids => GT (strip_h m) (map (fun '(p, k) => (p, strip_tree k)) kids) end.
